@@ -479,6 +479,42 @@ theorem go_stdout_comes_from_the_search {P O : Type} (g : Game P) (ord : Oracle 
     · cases h
     · exact h
 
+open Handover in
+/-- `Realised` — the premise of the end-to-end theorems above — also follows from the two-thread
+    machine: if what the dispatcher gets back is the board on the bestmove line of SOME schedule of
+    the hand-over machine run on the reports of the search (any clock, any ordering), it is a root
+    successor.  So `go_is_answered_with_one_legal_bestmove`, `consecutive_go_answers_are_legal` and
+    `position_then_consecutive_go` hold for every interleaving of the two threads. -/
+theorem realised_of_handover {O : Type} (h : Hasher) (search : Pos → DrawTable → Nat → Option Pos)
+    (ord : Oracle Pos O) (hord : OrdSub ord) (fuel : Nat)
+    (s0 : Pos → DrawTable → Nat → SS Pos O) (hs0 : ∀ b t sl, (s0 b t sl).reports = #[])
+    (sched : Pos → DrawTable → Nat → List Ev)
+    (hsearch : ∀ b t sl x, search b t sl = some x →
+      ∃ pre, (run (actsOf (outState (getBestMove (chessGame h) ord fuel b (s0 b t sl))).reports) (sched b t sl)).out
+              = pre ++ [Handover.Line.best x]) :
+    Realised h search := by
+  intro board table slice b _ _ hs
+  obtain ⟨pre, hout⟩ := hsearch board table slice b hs
+  obtain ⟨shown, _, hcase⟩ := go_stdout_comes_from_the_search (chessGame h) ord fuel board
+    (s0 board table slice) (hs0 board table slice) (sched board table slice)
+  have hsent : Report.sent b ∈ (outState (getBestMove (chessGame h) ord fuel board (s0 board table slice))).reports.toList := by
+    rcases hcase with ⟨_, ho⟩ | ⟨_, b', ho, hmem⟩
+    · exfalso
+      rw [ho] at hout
+      have h1 : (List.map Handover.Line.info shown).getLast? = some (Handover.Line.best b) := by
+        rw [hout]; simp
+      rw [List.getLast?_map] at h1
+      cases hl : shown.getLast? with
+      | none => rw [hl] at h1; cases h1
+      | some i => rw [hl] at h1; cases h1
+    · rw [ho] at hout
+      have h1 : (List.map Handover.Line.info shown ++ [Handover.Line.best b']).getLast? = some (Handover.Line.best b) := by
+        rw [hout]; simp
+      simp at h1
+      rw [← h1]; exact hmem
+  exact getBestMove_sends_root_successors (chessGame h) ord hord fuel board (s0 board table slice)
+    (hs0 board table slice) b hsent
+
 /-- non-vacuity / the race of defect D13 as a schedule: the improvement is accepted by the clock
     check, the I/O thread answers first — the info line is NOT printed afterwards; and when the
     improvement gets through first, the bestmove carries it -/
